@@ -95,8 +95,15 @@ def main():
     shutil.rmtree(SCR, ignore_errors=True)
     rows = []
     try:
+        sh(["rsync", "-a", "--delete", "--exclude", "_build", "--exclude", ".git", "/repo/", SCR + "/"])
+        previous = None
         for n, (path, li, old, new, what) in enumerate(chosen):
-            sh(["rsync", "-a", "--delete", "--exclude", "_build", "--exclude", ".git", "/repo/", SCR + "/"])
+            # restore the file of the previous mutant with a NEW modification time (rsync -a would restore the old one and make
+            # would then keep the objects built from the mutated header)
+            if previous:
+                shutil.copyfile(os.path.join("/repo", previous), os.path.join(SCR, previous))
+                os.utime(os.path.join(SCR, previous), None)
+            previous = path
             p = os.path.join(SCR, path)
             lines = open(p).read().split("\n")
             lines[li] = new
